@@ -477,7 +477,7 @@ def run_shard(spec):
                     part.count("same_command_repeated")
     else:
         cross_function_part(part)
-        ts = (1, 2, 3)
+        ts = (0.25, 1, 2, 3)      # (sub-second budgets too: a floor or rounding applied by one family class would show here)
         rs = (0, 1, 2, 3)
         for t in ts:
             for r in rs:
